@@ -370,4 +370,5 @@ def finish_coverage(cov, counters, tier):
 
 
 def replay(env, rep):
-    print(json.dumps(rep["features"]))
+    from vf.replay import generic
+    generic(env, rep)
